@@ -1730,6 +1730,25 @@ namespace awkward {
     return axis;
   }
 
+  int64_t
+  Content::axis_wrap_if_negative(int64_t axis, int64_t depth) const {
+    if (axis >= 0) {
+      return axis;
+    }
+    std::pair<int64_t, int64_t> minmax = minmax_depth();
+    if (minmax.first == minmax.second) {
+      int64_t posaxis = minmax.second + axis;
+      if (posaxis < 0) {
+        throw std::invalid_argument(
+          std::string("axis == ") + std::to_string(axis)
+                      + std::string(" exceeds the depth == ") + std::to_string(minmax.second)
+                      + std::string(" of this array") + FILENAME(__LINE__));
+      }
+      return posaxis + depth;
+    }
+    return axis_wrap_if_negative(axis);
+  }
+
   const std::string
   Content::validityerror_parameters(const std::string& path) const {
     if (parameter_equals("__array__", "\"string\"")) {
